@@ -59,6 +59,15 @@ def impl(case):
         try:
             E = earley.Earley(g)
             out["vals"]["earley"] = [_safe(lambda: E(x), R) for x in xs]
+            # structural: the chart columns of the real Earley parser on its own preprocessed grammar (mirror model Model/Earley.lean)
+            ear = {"cfg": common.enc_cfg(E.cfg, R), "order": [[common.enc_sym(X), int(n)] for X, n in E.order.items()], "items": []}
+            for x in [t for t in xs if len(t) >= 1][:2]:
+                cols = E.chart(x)
+                ear["items"].append({"x": [common.enc_sym(t) for t in x],
+                                     "cols": [{"c": [[int(I), common.enc_sym(X), common.enc_w(w, R)] for (I, X), w in col.c_chart.items()],
+                                               "i": [[int(I), common.enc_sym(X), [common.enc_sym(y) for y in E.intern_Ys[int(Ys)]], common.enc_w(w, R)] for (I, X, Ys), w in col.i_chart.items()]}
+                                              for col in cols]})
+            out["earley_struct"] = ear
         except Exception as e:  # noqa
             out["vals"]["earley"] = [{"exc": type(e).__name__, "msg": "ctor " + str(e)[:200]}] * len(xs)
         if R == "Float":
@@ -210,6 +219,46 @@ def run(ctx):
     nontrivial = set()
     shapes = {}
     stats = {"exact": 0, "deep": 0, "unconverged": 0, "nonzero": 0, "zero": 0, "materialize": 0, "exceptions": {}}
+    # structural correspondence of the Earley model (charts of complete and incomplete items)
+    eops, eidx = [], []
+    for c in cases:
+        r0 = impl[hashseeds[0]].get(c["id"]) or {}
+        ear = r0.get("earley_struct")
+        if ear:
+            for it in ear["items"]:
+                eops.append({"op": "earley", "R": _lean_R(c["R"]), "cfg": ear["cfg"], "order": ear["order"], "x": it["x"]})
+                eidx.append((c, it, ear))
+    for (c, it, ear), r in zip(eidx, ctx["lean"](eops)):
+        if "error" in r:
+            raise common.DriverError(r["error"])
+
+        def canon(entries, arity):
+            d = {}
+            for e in entries:
+                k = json.dumps(e[:arity])
+                v = e[arity]
+                if isinstance(v, bool):
+                    d[k] = d.get(k, False) or v
+                elif c["R"] == "MaxTimes":
+                    d[k] = max(d.get(k, 0), common.num(v))
+                else:
+                    d[k] = d.get(k, 0) + common.num(v)
+            return {k: v for k, v in d.items() if v not in (0, False)}
+        ok, why = True, ""
+        if len(r["cols"]) != len(it["cols"]):
+            ok, why = False, "number of columns differs"
+        else:
+            for k, (mc, ic) in enumerate(zip(r["cols"], it["cols"])):
+                for part, ar in (("c", 2), ("i", 3)):
+                    a, b = canon(mc[part], ar), canon(ic[part], ar)
+                    if set(a) != set(b) or any(not common.close(a[q], b[q], 1e-9, 1e-12) for q in a):
+                        ok, why = False, f"column {k} {part}_chart: only-model {sorted(set(a) - set(b))[:3]} only-impl {sorted(set(b) - set(a))[:3]}"
+                        break
+                if not ok:
+                    break
+        if not ok:
+            structural.append({"op": "Earley", "what": why, "cfg": ear["cfg"], "order": ear["order"], "x": it["x"], "case_id": c["id"]})
+    stats_struct = {"inccky_items": len(iops), "earley_items": len(eops)}
     for c, L in zip(cases, lean):
         if "error" in L:
             raise common.DriverError(L["error"])
@@ -269,7 +318,7 @@ def run(ctx):
         "rule": "seeded random grammars from named shape classes x semiring x strings (sampled derivations, corruptions, random); "
                 "non-trivial = distinct (grammar, strings) with at least one string of non-zero and one of zero derivation sum",
         "samples": samples, "traces": evaluations - len(semantic), "semantic": semantic, "structural": structural,
-        "extra": {"shape_histogram": shapes, "hashseeds": hashseeds, "oracle_stats": stats, "cases": len(cases)},
+        "extra": {"shape_histogram": shapes, "hashseeds": hashseeds, "oracle_stats": stats, "cases": len(cases), "structural_models": stats_struct},
         "assumptions": ["deep (IEEE, n=64) truncations of WN are compared with rtol 1e-7 and only where WN_64 and WN_32 agree to 1e-12"],
     }
 
